@@ -13,6 +13,7 @@ import ast
 from ..core import (AnalysisError, short, unparse, iter_own, call_name, call_recv, kwarg,
                     is_self_attr, atomic_facts, parents, enclosing_stmt, const_value)
 from . import gcommon
+from .. import affine, symex
 
 UTIL = 'pylatexenc._util'
 WALKER = 'pylatexenc.latexwalker._walker'
@@ -41,109 +42,7 @@ def run(ctx):
     init = lnc.get('__init__')
     if f is None or init is None:
         raise AnalysisError('anchor vanished: LineNumbersCalculator.pos_to_lineno_colno/__init__')
-    pos = f.args.args[1].arg
-    stmts = [s for s in iter_own(f) if isinstance(s, ast.stmt)]
-    stmts.sort(key=lambda s: (s.lineno, s.col_offset))
-    # locate: index definition
-    idx_def = None
-    for s in stmts:
-        if isinstance(s, ast.Assign) and isinstance(s.value, ast.BinOp) and \
-                isinstance(s.value.op, ast.Sub) and isinstance(s.value.left, ast.Call) and \
-                call_name(s.value.left) in ('bisect_right', 'bisect') and \
-                isinstance(s.value.right, ast.Constant) and s.value.right.value == 1:
-            idx_def = s
-    if idx_def is None:
-        ctx.unknown('R20c', u, f, 'index definition `bisect_right(T, pos) - 1` not found',
-                    construct='line index')
-        return 'other', _expl()
-    ivar = idx_def.targets[0].id
-    bis = idx_def.value.left
-    table = unparse(bis.args[0])
-    ok_bis = len(bis.args) == 2 and unparse(bis.args[1]) == pos
-    ctx.decide('R20c', ok_bis, u, idx_def, 'index = bisect_right(%s, %s) - 1' % (table, pos),
-               'line index is not computed from the queried position', construct='line index: '
-               + short(idx_def))
-    # column definition
-    col_def = None
-    for s in stmts:
-        if isinstance(s, ast.Assign) and isinstance(s.value, ast.BinOp) and \
-                isinstance(s.value.op, ast.Sub) and unparse(s.value.left) == pos and \
-                isinstance(s.value.right, ast.Subscript):
-            col_def = s
-    if col_def is None:
-        ctx.refuted('R20c', u, f, 'no definition col = %s - %s[i]' % (pos, table),
-                    construct='column definition')
-        return 'other', _expl()
-    cvar = col_def.targets[0].id
-    sub = col_def.value.right
-    between = [s for s in stmts if idx_def.lineno < s.lineno < col_def.lineno
-               and isinstance(s, (ast.Assign, ast.AugAssign)) and ivar in _targets(s)]
-    ok_col = unparse(sub.value) == table and unparse(sub.slice) == ivar and not between
-    ctx.decide('R20c', ok_col, u, col_def,
-               'column = %s - %s[%s] with the raw line index' % (pos, table, ivar),
-               'the column is not position minus the start of the line selected by the raw index '
-               '(%s; index re-bound in between: %s)' % (short(col_def), [short(b) for b in between]),
-               construct='column definition: ' + short(col_def))
-    # the first-line test
-    test_if = None
-    for s in stmts:
-        if isinstance(s, ast.If) and isinstance(s.test, ast.Compare) and \
-                unparse(s.test.left) == ivar and isinstance(s.test.ops[0], ast.Eq) and \
-                isinstance(s.test.comparators[0], ast.Constant):
-            test_if = s
-    if test_if is None:
-        ctx.refuted('R20c', u, f, 'no `if %s == 0` selecting the first-line column offset' % ivar,
-                    construct='first-line test')
-    else:
-        zero = test_if.test.comparators[0].value == 0
-        rebound = [s for s in stmts if idx_def.lineno < s.lineno < test_if.lineno
-                   and isinstance(s, (ast.Assign, ast.AugAssign)) and ivar in _targets(s)]
-        ctx.decide('R20c', zero and not rebound, u, test_if,
-                   'tests the raw index against 0 (no offset added before)',
-                   'the first-line test `%s` does not see the raw line index: %s is modified '
-                   'before it (%s) or compared with %r: the first-line column offset is applied '
-                   'to the wrong lines when line_number_offset != 0'
-                   % (short(test_if.test), ivar, [short(r) for r in rebound],
-                      test_if.test.comparators[0].value),
-                   construct='first-line test: ' + short(test_if.test))
-
-        def adds(body, attr):
-            return any(isinstance(s, ast.AugAssign) and isinstance(s.op, ast.Add)
-                       and unparse(s.target) == cvar and is_self_attr(s.value, attr)
-                       for s in body) or any(
-                isinstance(s, ast.Assign) and unparse(s.targets[0]) == cvar and
-                unparse(s.value) in ('%s + self.%s' % (cvar, attr), 'self.%s + %s' % (attr, cvar))
-                for s in body)
-        ok_off = adds(test_if.body, 'first_line_column_offset') and \
-            adds(test_if.orelse, 'column_offset') and len(test_if.body) == 1 and \
-            len(test_if.orelse) == 1
-        ctx.decide('R20c', ok_off, u, test_if,
-                   'first line: + first_line_column_offset; other lines: + column_offset',
-                   'column offsets are not added as documented (first_line_column_offset on the '
-                   'first line, column_offset otherwise)', construct='column offsets')
-    # line offset
-    lo = [s for s in stmts if isinstance(s, ast.AugAssign) and unparse(s.target) == ivar
-          and isinstance(s.op, ast.Add) and is_self_attr(s.value, 'line_number_offset')]
-    ctx.decide('R20c', len(lo) == 1, u, lo[0] if lo else f,
-               'line = index + line_number_offset (added once)',
-               'line_number_offset is not added exactly once to the line index',
-               construct='line offset')
-    # returns
-    for r in [s for s in stmts if isinstance(s, ast.Return) and s.value is not None]:
-        v = r.value
-        facts = atomic_facts(r)
-        none_branch = any(pol and unparse(t) == pos + ' is None' for t, pol in facts)
-        if none_branch:
-            continue
-        if isinstance(v, ast.Tuple):
-            ok = [unparse(e) for e in v.elts] == [ivar, cvar]
-            ctx.decide('R20c', ok, u, r, 'returns (line, column)',
-                       'returns %s instead of (line, column)' % short(v), construct='return tuple')
-        elif isinstance(v, ast.Dict):
-            d = {const_value(k): unparse(val) for k, val in zip(v.keys, v.values)}
-            ok = d == {'lineno': ivar, 'colno': cvar}
-            ctx.decide('R20c', ok, u, r, "returns {'lineno': line, 'colno': column}",
-                       'dictionary result maps %s' % d, construct='return dict')
+    _r20c(ctx, u, f)
 
     # ------------------------------------------------------------ R20b
     names = ('line_number_offset', 'first_line_column_offset', 'column_offset')
@@ -265,6 +164,134 @@ def run(ctx):
     ctx.assume('bisect.bisect_right semantics; the line-start table _pos_new_lines is the sorted '
                'list of line starts beginning with 0 (value-level, not decided)')
     return 'other', _expl()
+
+
+def _first_line_test(t, raw_nf):
+    """+1 if the comparison `t` is true exactly when the raw index is 0, -1 if true exactly when
+    it is not 0 (index >= 0), 0 if it is a test of something else / another boundary; None when
+    the tested quantity is not the raw index"""
+    if isinstance(t, ast.UnaryOp) and isinstance(t.op, ast.Not):
+        r = _first_line_test(t.operand, raw_nf)
+        return -r if r else r
+    if not isinstance(t, ast.Compare) or len(t.ops) != 1:
+        try:
+            if affine.norm(t, {}) == raw_nf:     # truthiness of the raw index
+                return -1
+        except affine.NotAffine:
+            pass
+        return None
+    try:
+        d = affine.diff(t.left, t.comparators[0], {})
+    except affine.NotAffine:
+        return None
+    # d = (left - right) must be  +-(raw - c)
+    for sign in (1, -1):
+        c0 = sign * d[0] - raw_nf[0]
+        terms = dict((k, sign * v) for k, v in d[1].items())
+        if terms == raw_nf[1]:
+            # sign*(left-right) = raw + c0 ; evaluate the comparison for raw = 0, 1, 2
+            import operator
+            ops = {ast.Eq: operator.eq, ast.NotEq: operator.ne, ast.Lt: operator.lt,
+                   ast.LtE: operator.le, ast.Gt: operator.gt, ast.GtE: operator.ge}
+            op = ops.get(type(t.ops[0]))
+            if op is None:
+                return None
+            vals = [op(sign * (r + c0), 0) for r in (0, 1, 2, 50)]
+            if vals == [True, False, False, False]:
+                return 1
+            if vals == [False, True, True, True]:
+                return -1
+            return 0
+    return None
+
+
+def _r20c(ctx, u, f):
+    """value-flow form of R20c: the substituted return values of every structural path are
+    compared as affine normal forms (no dependence on local names or statement shapes)"""
+    pos = f.args.args[1].arg
+    try:
+        cases = symex.return_cases(f, pure=('bisect_right', 'bisect'))
+    except symex.TooManyPaths as e:
+        ctx.unknown('R20c', u, f, str(e), construct='pos_to_lineno_colno')
+        return
+    n = 0
+    for cs in cases:
+        if cs.polarity_of(lambda a: unparse(a) == pos + ' is None'):
+            continue
+        v = cs.sub
+        if isinstance(v, ast.Tuple) and len(v.elts) == 2:
+            line, col = v.elts
+            shape = 'tuple'
+        elif isinstance(v, ast.Dict):
+            d = dict((const_value(k), val) for k, val in zip(v.keys, v.values))
+            if set(d) != {'lineno', 'colno'}:
+                ctx.refuted('R20c', u, cs.node, 'dictionary result has keys %s, not lineno/colno'
+                            % sorted(map(str, d)), construct='return dict')
+                continue
+            line, col = d['lineno'], d['colno']
+            shape = 'dict'
+        else:
+            ctx.unknown('R20c', u, cs.node, 'return value %s is neither a pair nor a dict' % short(v),
+                        construct='return shape')
+            continue
+        n += 1
+        path = ' & '.join(cs.cond_src())[:120]
+        cons = 'return %s [%s]' % (shape, path)
+        try:
+            ln = affine.norm(line, {})
+            cn = affine.norm(col, {})
+        except affine.NotAffine as e:
+            ctx.unknown('R20c', u, cs.node, 'result not affine: %s' % e, construct=cons)
+            continue
+        # line = bisect_right(T, pos) - 1 + self.line_number_offset
+        bis = [k for k in ln[1] if k.startswith(('bisect_right(', 'bisect('))]
+        ok_line = len(bis) == 1 and ln[1].get(bis[0]) == 1 and ln[0] == -1 and \
+            dict((k, v_) for k, v_ in ln[1].items() if k != bis[0]) == {'self.line_number_offset': 1}
+        table = None
+        if ok_line:
+            call = ast.parse(bis[0], mode='eval').body
+            ok_line = len(call.args) == 2 and unparse(call.args[1]) == pos
+            table = unparse(call.args[0])
+        if not ok_line:
+            ctx.refuted('R20c', u, cs.node, 'the line returned is %s, not bisect_right(T, %s) - 1 + '
+                        'self.line_number_offset' % (short(line, 90), pos), construct=cons + ' line')
+            continue
+        ctx.holds('R20c', u, cs.node, 'line = %s - 1 + self.line_number_offset' % bis[0],
+                  construct=cons + ' line')
+        raw_nf = (-1, {bis[0]: 1})
+        # which offset applies on this path
+        first = None
+        for t, pol in cs.conds:
+            for a, ap in symex._atoms(t, pol):
+                r = _first_line_test(a, raw_nf)
+                if r in (1, -1):
+                    first = (r == 1) == ap
+                elif r == 0:
+                    first = 'bad:' + unparse(a)
+        if first is None:
+            tests = [unparse(t) for t, _ in cs.conds]
+            ctx.refuted('R20c', u, cs.node, 'no test of the raw line index against 0 selects the '
+                        'column offset on this path (tests seen: %s): the first-line column offset '
+                        'is applied to the wrong lines' % tests, construct=cons + ' first-line test')
+            continue
+        if isinstance(first, str):
+            ctx.refuted('R20c', u, cs.node, 'the first-line test %s does not separate raw index 0 '
+                        'from the rest' % first[4:], construct=cons + ' first-line test')
+            continue
+        off = 'self.first_line_column_offset' if first else 'self.column_offset'
+        sub = '%s[%s - 1]' % (table, bis[0])
+        want = {pos: 1, sub: -1, off: 1}
+        got = dict(cn[1])
+        ok_col = cn[0] == 0 and got == want
+        ctx.decide('R20c', ok_col, u, cs.node,
+                   'column = %s - %s + %s on the %s' % (pos, sub, off, 'first line' if first else 'other lines'),
+                   'the column returned on %s is %s, expected %s - %s + %s (same raw index as the '
+                   'line, offset of that kind of line)' % (
+                       'the first line' if first else 'lines after the first', affine.show(cn),
+                       pos, sub, off), construct=cons + ' column')
+    if n < 4:
+        raise AnalysisError('pos_to_lineno_colno: only %d result cases found (expected tuple/dict x '
+                            'first/other line)' % n)
 
 
 def _expl():
